@@ -186,4 +186,7 @@ def run(P, R, tier):
     proxy = _R(R)
     before = len(R.obligations)
     removal_guard(P, proxy)
+    from . import c15
+    from ..report import Remap
+    c15.notification(P, Remap(R, {'C15.GRD.1': 'C17.GRD.3', 'C15.MPT.1': 'C17.GRD.3'}))
     return EXPLANATION, ASSUMPTIONS
